@@ -703,16 +703,34 @@ impl World {
         let mut idx: Vec<usize> = ks.iter().copied().filter(|k| *k < self.outstanding.len()).collect();
         idx.sort_unstable();
         idx.dedup();
+        self.respond_batch_in_order(&idx, code, size)
+    }
+
+    /// one `enqueue_responses` call with the responses to `outstanding[ks[0]], outstanding[ks[1]], ..`
+    /// in exactly that order (indices distinct)
+    pub fn respond_batch_in_order(&mut self, ks: &[usize], code: u16, size: usize) -> bool {
+        let mut order: Vec<usize> = Vec::new();
+        for k in ks {
+            if *k < self.outstanding.len() && !order.contains(k) {
+                order.push(*k);
+            }
+        }
+        let mut sorted = order.clone();
+        sorted.sort_unstable();
+        let mut taken: Vec<(usize, Outstanding)> = Vec::new();
+        for k in sorted.into_iter().rev() {
+            taken.push((k, self.outstanding.remove(k)));
+        }
         let mut batch = Vec::new();
-        for k in idx.into_iter().rev() {
-            let o = self.outstanding.remove(k);
+        for k in order {
+            let pos = taken.iter().position(|(i, _)| *i == k).unwrap();
+            let (_, o) = taken.swap_remove(pos);
             let version = crate::connrun::version_code(o.sreq.request.http_version());
             let (resp, bytes) = self.make_response(o.c, o.j, code, size, version);
             let mut slot = Some(resp);
             let sresp = o.sreq.process(|_| slot.take().unwrap());
             batch.push((o.c, o.j, bytes, sresp));
         }
-        batch.reverse();
         let mut v = Vec::new();
         for (c, j, bytes, sresp) in batch {
             self.clients[c].expected.push(Expected { j, bytes });
